@@ -22,14 +22,15 @@ def gen_cases(tier, seed):
             for sch in p_c03.interleavings(counts, 10 if tier == "quick" else 60, rnd):
                 cases.append("run - | %s | %s" % (";".join(progs), "".join(map(str, sch))))
     # block_on: the first three loop steps (reset, flag check, first poll) come first so that a waker exists
-    scripts = ["r", "pr", "ppr", "pp", "ppp"]
+    # w: the future wakes itself inside its poll (flag store and notify on the loop thread, before the poll returns)
+    scripts = ["r", "pr", "ppr", "pp", "ppp", "wr", "wpr", "pwr", "ww", "w", "wwr"]
     progs2 = ["k", "kk", "ks", "kw", "skw", "sw", "w"]
     for f in scripts:
         for a in progs2:
             for b in ["", "k", "sw"]:
                 progs = [p for p in (a, b) if p]
-                counts = [6] + [sum(STEPS[c] for c in p) for p in progs]
-                for sch in p_c03.interleavings(counts, 4 if tier == "quick" else 40, rnd):
+                counts = [6 + 3 * f.count("w")] + [sum(STEPS[c] for c in p) for p in progs]
+                for sch in p_c03.interleavings(counts, 3 if tier == "quick" else 40, rnd):
                     cases.append("blockon %s | %s | 000%s" % (f, ";".join(progs), "".join(map(str, sch))))
     rnd.shuffle(cases)
     return cases[: (450 if tier == "quick" else 6000)]
@@ -101,6 +102,10 @@ def judge(case, out):
         fails.append("lost wakeup: the loop is blocked in its wait although a wakeup() was issued after its last wait began")
     if blockon:
         n_ready = script.index("r") + 1 if "r" in script else None
+        # a future that woke itself during poll k must be polled again (or block_on ends by stop)
+        n_self = len(script) - len(script.lstrip("w"))   # leading self-waking polls need no help from other threads
+        if n_self and returned is None and polls <= n_self and polls > 0 and final_waiting and script[polls - 1] == "w":
+            fails.append("lost wake: the future woke itself during poll %d but was never polled again; the loop is blocked" % polls)
         if returned == "RET1" and (n_ready is None or polls != n_ready):
             fails.append("block_on returned Some after %d polls, the future completes at poll %s" % (polls, n_ready))
         if n_ready is not None and polls >= n_ready and returned != "RET1":
@@ -152,7 +157,7 @@ def main(tier, seed):
         "evaluations": len(cases), "distinct_nontrivial": len(set(norm(x) for x in impl)),
         "traces_validated_against_impl": len(cases) - len(diffs),
         "rule": "run(None): stop/wakeup programs of 1-2 signalling threads interleaved with the first 5 loop steps at every position; block_on: future scripts "
-                "{r,pr,ppr,pp,ppp} x wake/stop/wakeup programs; the loop thread really blocks in epoll_wait; a case is one schedule on real threads",
+                "{r,pr,ppr,pp,ppp,wr,wpr,pwr,ww,w,wwr} (w = wakes itself inside poll) x wake/stop/wakeup programs; the loop thread really blocks in epoll_wait; a case is one schedule on real threads",
         "samples": [{"case": c, "impl": i, "model": m} for c, i, m in list(zip(cases, impl, model))[:2]],
         "model_impl_disagreements": len(diffs),
     })
